@@ -28,11 +28,18 @@ import (
 func main() {
 	repo := flag.String("repo", "/repo", "repository root")
 	pkgRel := flag.String("pkg", "", "package dir relative to repo, e.g. scrypt")
-	harnessDir := flag.String("harness", "/verif/harness", "harness root")
+	defHarness := "/verif/harness"
+	if exe, err := os.Executable(); err == nil {
+		// bin/gosym lives next to harness/ (also inside git worktrees of the framework)
+		if d := filepath.Join(filepath.Dir(filepath.Dir(exe)), "harness"); dirExists(d) {
+			defHarness = d
+		}
+	}
+	harnessDir := flag.String("harness", defHarness, "harness root")
 	run := flag.String("run", ".*", "regexp of harness function names (Verif_...)")
 	out := flag.String("out", "", "output JSON file (default stdout)")
 	timeout := flag.Int("solver-timeout", 20000, "per-query solver timeout ms")
-	solvers := flag.String("solvers", "z3-new,cvc5,z3r", "solver portfolio order (z3-new / z3 = incremental push/pop instances with a quarter of the time limit; cvc5; z3r / z3-newr = one-shot after reset)")
+	solvers := flag.String("solvers", "z3-new,z3-int,cvc5,z3r", "solver portfolio order (z3-int = integer translation for arithmetic-only queries; z3-new / z3 = incremental push/pop instances with a quarter of the time limit; cvc5; z3r / z3-newr = one-shot after reset)")
 	unwind := flag.Int("unwind", 64, "default unwind bound")
 	maxSteps := flag.Int("max-steps", 20000000, "per-path step limit")
 	maxPaths := flag.Int("max-paths", 200000, "path limit per harness")
@@ -225,6 +232,11 @@ func main() {
 			fatal(err)
 		}
 	}
+}
+
+func dirExists(d string) bool {
+	st, err := os.Stat(d)
+	return err == nil && st.IsDir()
 }
 
 func fatal(err error) {
